@@ -30,7 +30,8 @@ META = dict(
 )
 
 _SC = {
-    "pml-z": dict(shape=(3, 3, 6), bounds={"min_z": "pml", "max_z": "pml"}, src=("dipole", "plane")),
+    "pml-z": dict(shape=(3, 3, 6), bounds={"min_z": "pml", "max_z": "pml"}, src=("dipole", "plane"),
+                  det=("field", "energy", "poynting", "phasor", "field_red", "phasor_apod")),
     "pec-pmc-periodic": dict(shape=(3, 3, 4), bounds={"min_x": "pec", "max_x": "pec", "min_y": "pmc", "max_y": "pmc", "min_z": "periodic", "max_z": "periodic"}, src=("dipole", "mdipole")),
     "pml-all": dict(shape=(4, 4, 5), bounds="pml", src=("dipole",), thickness=1),
     "periodic-gauss": dict(shape=(3, 3, 4), bounds="periodic", src=("gauss", "mdipole")),
@@ -54,6 +55,7 @@ def run_case(c, case):
     kw = dict(bounds=spec["bounds"], src_kinds=spec["src"], thickness=spec.get("thickness", 2))
     if spec.get("mode"):
         kw["extra"] = [_run.lossy_core(shape), _run.mode_source(shape)]
+    if spec.get("det"):
         kw["det_kinds"] = spec["det"]
     SR = _run.scene(shape, T, use_complex=False, **kw)
     SC = _run.scene(shape, T, use_complex=True, **kw)
